@@ -1483,9 +1483,43 @@ func main() {
 	nMatcher := mon.N(3000, 200000) + 2*len(oracle.CuratedRegexes) + 2*len(exoticRegexes) + len(brokenRegexes)
 	nPlace := mon.N(300, 10000)
 
-	// place 1 is CPU-bound and touches no global counter: run it beside the table places
+	// the table places read process-global counters and live on goroutine
+	// hand-overs (relay loops, aggregator loop, Table.In): strictly one after
+	// the other, and before the CPU-bound matcher place so that they are not
+	// starved by it
+	bl := k.newBlacklistPlace()
+	rp := &routePlace{k: k, t: newTable()}
+	dp := &routePlace{k: k, t: newTable()}
+	ap := k.newAggPlace()
+	arp := &aggRoutePlace{k: k, t: newTable()}
+	spent := map[string]time.Duration{}
+	timed := func(place string, f func()) {
+		t0 := time.Now()
+		f()
+		spent[place] += time.Since(t0)
+	}
+	for i := 0; i < nPlace; i++ {
+		if !mon.Mine(i) {
+			continue
+		}
+		timed("blacklist", func() { bl.run(i) })
+		timed("route", func() { rp.runRoute(i) })
+		timed("dest", func() { dp.runDest(i) })
+		timed("agg", func() { ap.run(i) })
+		timed("aggregate-routing", func() { arp.run(i) })
+	}
+
+	// place 1 touches no global counter: a few workers per shard (all shards together about one per core)
+	_, nshards := mon.Shard()
+	workers := (runtime.NumCPU() + nshards - 1) / nshards
+	if workers < 1 {
+		workers = 1
+	}
+	if workers > 8 {
+		workers = 8
+	}
+	t0 := time.Now()
 	var wg sync.WaitGroup
-	const workers = 6
 	var next int64 = -1
 	for w := 0; w < workers; w++ {
 		wg.Add(1)
@@ -1502,32 +1536,8 @@ func main() {
 			}
 		}()
 	}
-
-	// the table places read process-global counters: strictly one after the other
-	bl := k.newBlacklistPlace()
-	rp := &routePlace{k: k, t: newTable()}
-	dp := &routePlace{k: k, t: newTable()}
-	ap := k.newAggPlace()
-	arp := &aggRoutePlace{k: k, t: newTable()}
-	spent := map[string]time.Duration{}
-	timed := func(place string, f func()) {
-		t0 := time.Now()
-		f()
-		spent[place] += time.Since(t0)
-	}
-	t0 := time.Now()
-	for i := 0; i < nPlace; i++ {
-		if !mon.Mine(i) {
-			continue
-		}
-		timed("blacklist", func() { bl.run(i) })
-		timed("route", func() { rp.runRoute(i) })
-		timed("dest", func() { dp.runDest(i) })
-		timed("agg", func() { ap.run(i) })
-		timed("aggregate-routing", func() { arp.run(i) })
-	}
 	wg.Wait()
-	spent["matcher(parallel, wall)"] = time.Since(t0)
+	spent["matcher (wall)"] = time.Since(t0)
 	secs := map[string]float64{}
 	for pl, d := range spent {
 		secs[pl] = float64(d.Milliseconds()) / 1000
